@@ -49,6 +49,11 @@ def run(ctx):
     ctx.rule("R7", "block reshapes keep axis meaning: every reshape/transpose chain between (mol[,spin],N,N) matrices and (pair,orb,orb) blocks is order-consistent")
     ctx.rule("R8", "integral pipeline hygiene: no pure tensor result is discarded; the h_pp floor of 0.1 eV feeds rho_2")
     ctx.rule("R9", "local-frame two-centre integrals equal the Dewar-Thiel point-charge multipole model (first-principles oracle, all 22 + 4 + 1 elements); core-electron elements select the right integrals")
+    ctx.rule("R10", "core-core repulsion has the published functional form for MNDO / AM1 / PM3 (X-H exception for N-H and O-H, Gaussian corrections divided by R)")
+    ctx.rule("R11", "molecular-frame two-electron integrals are the tensor transform of the local-frame ones (shared with C02-R6)")
+    from .c02 import check_integral_rotation
+    check_integral_rotation(ctx, "R11")
+    check_core_core_form(ctx, "R10")
     check_local_frame_integrals(ctx, "R9")
     check_block_reshapes(ctx, "R7")
     check_pipeline_hygiene(ctx, "R8")
@@ -582,3 +587,37 @@ def check_local_frame_integrals(ctx, rid):
                       f"core[{k}] = `{short(norm(v), 50)}` is not the partner's core charge times the matching (mu nu|ss) integral")
     if n < 8:
         raise AnalysisError("core-electron stores not found")
+
+
+def check_core_core_form(ctx, rid):
+    """pair_nuclear_energy interpreted symbolically (masked straight-line interpreter) for method x {X-H pair, other pair} and compared with
+         MNDO:     E = Z_i Z_j gamma (1 + f_i + e^{-alpha_j R}),   f_i = e^{-alpha_i R}  (R e^{-alpha_i R} for N-H, O-H with i = N/O)
+         AM1/PM3:  E_MNDO + (Z_i Z_j / R) (sum_k K_ik e^{-L_ik (R - M_ik)^2} + sum_k K_jk e^{-L_jk (R - M_jk)^2})          (R in Angstrom)"""
+    import itertools
+    import sympy as sp
+    from ..symexec import SymExec
+    repo = ctx.repo
+    en = repo.mod("seqm/seqm_functions/energy.py")
+    pne = en.func("pair_nuclear_energy")
+    r, ai, aj, Zi, Zj, gam = sp.symbols("r alpha_i alpha_j Z_i Z_j gamma", positive=True)
+    Ki, Kj, Li, Lj, Mi, Mj = sp.symbols("K_i K_j L_i L_j M_i M_j", real=True)
+    a0s = sp.Symbol("a0", positive=True)
+    idx = {"tore[ni]": Zi, "tore[nj]": Zj, "alpha[idxi]": ai, "alpha[idxj]": aj, "K[idxi]": Ki, "K[idxj]": Kj, "L[idxi]": Li, "L[idxj]": Lj, "M[idxi]": Mi, "M[idxj]": Mj}
+    funcs = {".reshape": lambda a, n: a[0], ".unsqueeze": lambda a, n: a[0]}
+    for method, xh in itertools.product(("MNDO", "AM1", "PM3"), (False, True)):
+        par = (sp.Symbol("alpha_tuple"), sp.Symbol("K"), sp.Symbol("L"), sp.Symbol("M")) if method != "MNDO" else (sp.Symbol("alpha_tuple"),)
+        envE = {"rij": r / a0s, "a0": a0s, "gam": gam, "parameters": par, "const.tore": sp.Symbol("tore"), "const.atomic_num": sp.Symbol("an")}
+        se = SymExec(envE, {"XH": xh}, {"method": method}, dict(idx, **{"parameters[0]": sp.Symbol("alpha")}), funcs)
+        se.env["alpha"] = sp.Symbol("alpha")
+        try:
+            E = se.run(list(pne.body))
+        except AnalysisError as e:
+            raise AnalysisError(f"pair_nuclear_energy not interpretable for {method}, XH={xh}: {e}")
+        fi = (r if xh else 1) * sp.exp(-ai * r)
+        want = Zi * Zj * gam * (1 + fi + sp.exp(-aj * r))
+        if method != "MNDO":
+            want += Zi * Zj / r * (Ki * sp.exp(-Li * (r - Mi) ** 2) + Kj * sp.exp(-Lj * (r - Mj) ** 2))
+        resid = sp.simplify(sp.expand(E - want))
+        ctx.check(resid == 0, rid, en, pne, "pair_nuclear_energy", f"{method}, X-H={xh}",
+                  f"{method}, {'N-H / O-H' if xh else 'generic'} pair: core-core energy equals the published expression",
+                  f"{method}, {'N-H / O-H' if xh else 'generic'} pair: core-core energy differs from the published expression by {resid}")
